@@ -2,7 +2,7 @@
 # developer tool: run all quick checks against every property-preserving change under safe_changes/ (3 in parallel)
 cd "$(dirname "$(readlink -f "$0")")"
 list="${@:-$(ls safe_changes)}"
-run_one() { d=$1; slot=$2; SAFE_TARGET=/tmp/safetest-target-$slot SAFE_KEEP=/tmp/safetest-keep ./safetest safe_changes/$d/patch.diff 2>&1 | tail -1; }
+run_one() { d=$1; slot=$2; SAFE_TARGET=/tmp/safetest-target-$$-$slot SAFE_KEEP=/tmp/safetest-keep ./safetest safe_changes/$d/patch.diff 2>&1 | tail -1; }
 i=0
 for d in $list; do
   run_one $d $((i%3)) &
@@ -10,4 +10,4 @@ for d in $list; do
   if [ $((i%3)) = 0 ]; then wait; fi
 done
 wait
-rm -rf /tmp/safetest-target-0 /tmp/safetest-target-1 /tmp/safetest-target-2
+rm -rf /tmp/safetest-target-$$-0 /tmp/safetest-target-$$-1 /tmp/safetest-target-$$-2
